@@ -13,7 +13,10 @@
 //   - checking through the script's byte accounting that nothing beyond the
 //     modelled blocks (plus the documented IV of the SM9 block modes) was consumed,
 //   - injecting a failure at every Read position of every operation and demanding
-//     error + no output + no panic.
+//     error + no output + no panic,
+//   - following the rejection sampling of every operation over runs of 1..1000
+//     consecutive out-of-range blocks (c12.runs): the scalar is the block behind the
+//     run, one full read per block, failure only when the source fails.
 package c12
 
 import (
@@ -39,6 +42,7 @@ func init() {
 	reg.Register("c12.reentrant", "C12", reentrant)
 	reg.Register("c12.history", "C12", history)
 	reg.Register("c12.retryfaults", "C12", retryFaults)
+	reg.Register("c12.runs", "C12", runs)
 }
 
 var (
@@ -499,7 +503,7 @@ func decide(ru rule, o *outcome, served []byte, checkAccepted bool) (*verdict, s
 // diagnose says how a wrong scalar relates to the served blocks (detail only).
 func diagnose(ru rule, got *big.Int, served []byte) string {
 	var hits []string
-	for i := 0; 32*(i+1) <= len(served) && i < 64; i++ {
+	for i := 0; 32*(i+1) <= len(served) && i < 1100; i++ {
 		raw := new(big.Int).SetBytes(served[32*i : 32*i+32])
 		val := ru.value(served[32*i : 32*i+32])
 		rel := func(name string, v *big.Int) {
